@@ -9,9 +9,9 @@
 // moves the cursor by n, n == 0 only for an empty buffer or at the end of the range; seek moves
 // the cursor to the std position arithmetic, clamped into [0, |win|] (FileView documents clamping
 // where a Cursor would run past the end / report an error).
-// GREEN ONLY UNDER the narrowing preconditions pre_cursor_known (S1), pre_start_offset_no_u64_overflow
-// (S2), pre_current_offset_no_i64_overflow (S3), new/pre_window_inside_file (S4): see NOTES.md --
-// S1-S3 are reproduced misbehaviour of the real code; delete the marked line to expose each.
+// Narrowing preconditions: pre_cursor_known (S1: the recovery path after an I/O error recurses
+// forever -- I/O errors are outside C18's quantifier) and new/pre_window_inside_file (S4); see NOTES.md.
+// seek is proved for ALL offsets (S2/S3 fixed in /repo by saturating_add).
 use vstd::prelude::*;
 verus! {
 // 64-bit target (the `as usize` / `as u64` casts between u64 and usize are value-preserving)
@@ -77,6 +77,26 @@ impl VFile {
             },
     { unimplemented!() }
 }
+
+/// std's i64::saturating_add (vstd has a spec for the u64 one only): ASSUMED arithmetic contract
+pub assume_specification[ i64::saturating_add ](a: i64, b: i64) -> (r: i64)
+    ensures r == (if a + b > i64::MAX { i64::MAX as int } else if a + b < i64::MIN { i64::MIN as int } else { a + b });
+
+// A plain `+` at the two offset additions of `seek` (the pre-fix forms of S2/S3, NOTES.md) is routed
+// through these verified helpers by `//@sub ... min=0` so that the overflow obligation has a NAME.
+// On the fixed tree (saturating_add) the subs have 0 hits and the helpers are not called.
+fn pos_add_u64(a: u64, b: u64) -> (r: u64)
+    requires
+        [[L: seek/start_arm_add_no_overflow]]
+        a + b <= u64::MAX,
+    ensures r == a + b,
+{ a + b }
+fn pos_add_i64(a: i64, b: i64) -> (r: i64)
+    requires
+        [[L: seek/current_arm_add_no_overflow]]
+        i64::MIN <= a + b <= i64::MAX,
+    ensures r == a + b,
+{ a + b }
 
 // ---------------- specification vocabulary (written from the property) ----------------
 pub open spec fn imax(a: int, b: int) -> int { if a >= b { a } else { b } }
@@ -192,6 +212,8 @@ impl FileView {
 //@rule R6 min=3
 //@sub /io::Result<(\w+)>/ => Result<\1, IoError>
 //@sub /io::SeekFrom/ => SeekFrom min=1
+//@sub /self\.start \+ start\b/ => pos_add_u64(self.start, start) min=0
+//@sub /\(current as i64\) \+ offset\b/ => pos_add_i64(current as i64, offset) min=0
 //@ret r
 //@sig
     requires
@@ -202,14 +224,6 @@ impl FileView {
         // I/O error since the last absolute seek.  Without this line `termination` below fails:
         // seek(Current(d)) with current == None calls self.seek(Current(0)) with current still None.
         pos is Current ==> old(self).cursor_known(),
-        [[L: pre_start_offset_no_u64_overflow]]
-        // ASSUMPTION (defect S2, NOTES.md): the code computes `self.start + k` in u64 unprotected.
-        // Without this line `start_arm_add_no_overflow` fails (replay: fileview n=100 a=50 b=80 ops=S-1).
-        pos matches SeekFrom::Start(k) ==> old(self).start + k <= u64::MAX,
-        [[L: pre_current_offset_no_i64_overflow]]
-        // ASSUMPTION (defect S3, NOTES.md): the code computes `current as i64 + d` in i64 unprotected.
-        // Without this line `current_arm_add_no_overflow` fails (replay: ... ops=S10;C9223372036854775807).
-        pos matches SeekFrom::Current(d) ==> old(self).current.unwrap() + d <= i64::MAX,
     ensures
         [[L: invariant_preserved]]
         final(self).wf(),
@@ -224,16 +238,16 @@ impl FileView {
     decreases
         [[L: termination]]
         (if pos is Current && !old(self).cursor_known() { 1int } else { 0int }),
-//@at /let seek_from = / before
-                assert(self.start + start <= u64::MAX); [[L: start_arm_add_no_overflow]]
+//@at /let seek_from = / after
+                assert(seek_from == SeekFrom::Start(imin(self.end as int, self.start + start) as u64)); [[L: start_arm_target_unbounded]]
 //@at /^\s*assert\(/ nth=1 before
                         assert(self.start <= new_pos && new_pos <= self.end); [[L: start_arm_assert]]
 //@at /let new_pos = \(self\.end as i64\)/ before
                 assert(i64::MIN <= (self.end as i64) + end <= i64::MAX); [[L: end_arm_add_no_overflow]]
 //@at /^\s*assert\(/ nth=2 before
                         assert(self.start <= new_pos && new_pos <= self.end); [[L: end_arm_assert]]
-//@at /let new_pos = \(current as i64\)/ before
-                assert(i64::MIN <= (current as i64) + offset <= i64::MAX); [[L: current_arm_add_no_overflow]]
+//@at /let new_pos = .*current as i64/ after
+                assert(new_pos == imin(current + offset, i64::MAX as int)); [[L: current_arm_target_saturates]]
 //@at /^\s*assert\(/ nth=3 before
                         assert(self.start <= new_pos && new_pos <= self.end); [[L: current_arm_assert]]
 //@end
